@@ -9,6 +9,7 @@ import (
 	"fmt"
 	"os"
 	"runtime"
+	"strconv"
 	"strings"
 	"sync"
 	"sync/atomic"
@@ -70,7 +71,7 @@ func runPool(sc poolScenario) (string, string) {
 	cfg := sess.Config(cl, 4, ips...)
 	cfg.NumConns = sc.size
 	cfg.Timeout = 300 * time.Millisecond
-	s, err := cfg.CreateSession()
+	s, err := createSession(cfg)
 	if err != nil {
 		return "fatal:" + err.Error(), "fatal"
 	}
@@ -134,18 +135,17 @@ func runPool(sc poolScenario) (string, string) {
 	}
 	// let the pools settle: every lost connection must have been replaced
 	final := -1
-	for k := 0; k < 600; k++ {
+	// an event (every pool full, no filler) is waited for, not a duration
+	if patient(watchdogFull, func() bool {
 		ok := true
 		for _, st := range gocql.VerifPoolState(s) {
 			if st[0] != sc.size || st[3] != 0 {
 				ok = false
 			}
 		}
-		if ok && len(gocql.VerifPoolState(s)) == sc.hosts {
-			final = sc.size
-			break
-		}
-		time.Sleep(2 * time.Millisecond)
+		return ok && len(gocql.VerifPoolState(s)) == sc.hosts
+	}) {
+		final = sc.size
 	}
 	if final < 0 {
 		final = 0
@@ -162,18 +162,22 @@ func runPool(sc poolScenario) (string, string) {
 	twg.Wait()
 	cdone := make(chan struct{})
 	go func() { s.Close(); close(cdone) }()
-	select {
-	case <-cdone:
-	case <-time.After(15 * time.Second):
+	if !closedWithin(cdone, watchdogFull) {
 		return "fatal:Session.Close hangs " + stacks(), "fatal"
 	}
-	time.Sleep(250 * time.Millisecond) // slow dials still in flight finish and must close their connection
+	// slow dials still in flight finish and must close their connection: polled (the slowest scripted dial takes
+	// 230 ms), the watchdog only ends the wait when something stays open
+	after := 0
+	time.Sleep(250 * time.Millisecond)
+	patient(watchdogFull, func() bool {
+		after = 0
+		for _, n := range cl.Nodes {
+			after += openSockets(n)
+		}
+		return after == 0
+	})
 	close(stop)
 	mwg.Wait()
-	after := 0
-	for _, n := range cl.Nodes {
-		after += openSockets(n)
-	}
 	return fmt.Sprintf("poolobs size=%d maxconns=%d maxopen=%d final=%d afterclose=%d", sc.size,
 		atomic.LoadInt64(&maxConns), atomic.LoadInt64(&maxOpen), final, after), fmt.Sprintf("pool/size%d", sc.size)
 }
@@ -197,7 +201,7 @@ func runClose(closers int, inflight int, r *vh.Rng) string {
 	cfg := sess.Config(cl, 4, "10.0.0.1", "10.0.0.2")
 	cfg.NumConns = 2
 	cfg.Timeout = 5 * time.Second
-	s, err := cfg.CreateSession()
+	s, err := createSession(cfg)
 	if err != nil {
 		return "fatal:" + err.Error()
 	}
@@ -238,11 +242,9 @@ func runClose(closers int, inflight int, r *vh.Rng) string {
 	done := make(chan struct{})
 	go func() { cwg.Wait(); qwg.Wait(); close(done) }()
 	returned := 1
-	select {
-	case <-done:
-	case <-time.After(15 * time.Second):
+	if !closedWithin(done, watchdogFull) {
 		returned = 0
-		os.WriteFile("/tmp/c17_hang.txt", []byte(stacks()), 0o644)
+		os.WriteFile(dumpPath("hang", "sessclose"), []byte(stacks()), 0o644)
 	}
 	again := 0
 	adone := make(chan struct{})
@@ -250,10 +252,8 @@ func runClose(closers int, inflight int, r *vh.Rng) string {
 		defer func() { recover(); close(adone) }()
 		s.Close()
 	}()
-	select {
-	case <-adone:
+	if closedWithin(adone, watchdogFull) {
 		again = 1
-	case <-time.After(5 * time.Second):
 	}
 	qe := "other"
 	if err := s.Query("PING after").Exec(); err == gocql.ErrSessionClosed {
@@ -276,7 +276,7 @@ func closeRace(rounds int) string {
 	var panics, notReturned int64
 	for i := 0; i < rounds; i++ {
 		cfg := sess.Config(cl, 4, "10.0.0.1")
-		s, err := cfg.CreateSession()
+		s, err := createSession(cfg)
 		if err != nil {
 			return "fatal:" + err.Error()
 		}
@@ -299,9 +299,7 @@ func closeRace(rounds int) string {
 		}
 		done := make(chan struct{})
 		go func() { cwg.Wait(); close(done) }()
-		select {
-		case <-done:
-		case <-time.After(10 * time.Second):
+		if !closedWithin(done, watchdogFull) {
 			atomic.AddInt64(&notReturned, 1)
 		}
 	}
@@ -312,13 +310,69 @@ func closeRace(rounds int) string {
 	return fmt.Sprintf("sessclose returned=%d panics=%d again=1 queryerr=closed open=0", ret, atomic.LoadInt64(&panics))
 }
 
+// monitorsOf: the observation part of a pipeobs line (what the monitors saw), without the schedule.
+func monitorsOf(line string) string {
+	var out []string
+	for _, w := range strings.Fields(line) {
+		for _, k := range []string{"maxconns=", "orphans=", "closedconns=", "afterclose=", "leaked=", "stack=", "stalled="} {
+			if strings.HasPrefix(w, k) {
+				out = append(out, w)
+			}
+		}
+	}
+	return strings.Join(out, " ")
+}
+
+var replayN int
+
+// exec (replay): the conducted schedules and the scripted-fate scenarios are run again on the real code.
 func exec(op string) string {
 	w := strings.Fields(op)
+	replayN++
+	atomic.StoreInt64(&failures, 0) // every replayed line stands alone
+	atomic.StoreInt64(&tieStalls, 0)
+	label := fmt.Sprintf("r%d", replayN)
 	switch w[0] {
 	case "poolobs", "debrace", "sessclose":
 		return "accept"
-	case "model":
+	case "model", "hsmodel", "pipemodel":
 		return "(model only)"
+	case "pipe":
+		cfg, ok := parsePipeCfg(w[1:])
+		i := 0
+		for i < len(w) && w[i] != ":" {
+			i++
+		}
+		if !ok || i == len(w) {
+			return "bad-op"
+		}
+		_, impl, _ := runPipe(label, cfg, w[i+1:], nil, 0)
+		return impl
+	case "pipeobs":
+		fresh := ""
+		for _, x := range w {
+			if strings.HasPrefix(x, "sched=bseed:") {
+				bs, _ := strconv.ParseUint(strings.Split(strings.TrimPrefix(x, "sched=bseed:"), ",")[0], 10, 64)
+				fresh = runPipeB(label, bs)
+			} else if strings.HasPrefix(x, "sched=") {
+				cfg, ok := parsePipeCfg(w[1:])
+				if !ok {
+					return "bad-op"
+				}
+				var acts []string
+				if x != "sched=-" {
+					acts = strings.Split(strings.TrimPrefix(x, "sched="), ",")
+				}
+				_, _, fresh = runPipe(label, cfg, acts, nil, 0)
+			}
+		}
+		if fresh == "" {
+			return "bad-op"
+		}
+		if monitorsOf(fresh) == monitorsOf(op) {
+			return "accept"
+		}
+		return "observed-now:" + strings.ReplaceAll(monitorsOf(fresh), " ", ",")
 	}
 	return "bad-op"
 }
@@ -333,16 +387,20 @@ func main() {
 	}
 	r := vh.NewRng(vh.EnvSeed())
 	out := vh.NewOut(path)
+	dumpDir = path
 	mult := 1
 	if tier == "thorough" {
 		mult = 12
 	}
-	// 1. debouncer stop races (the defect repaired by the fix commit must not come back)
-	rounds := 3000 * mult
-	h := gocql.VerifRefreshDebouncerRace(rounds, 300*time.Millisecond)
-	out.Case(fmt.Sprintf("debrace refresh rounds=%d hung=%d", rounds, h), "accept", "debrace/refresh", true)
-	h = gocql.VerifEventDebouncerRace(rounds, 300*time.Millisecond)
-	out.Case(fmt.Sprintf("debrace event rounds=%d hung=%d", rounds, h), "accept", "debrace/event", true)
+	t0 := time.Now()
+	phases := map[string]interface{}{}
+	lap := func(what string) {
+		phases[what] = fmt.Sprintf("%.1fs", time.Since(t0).Seconds())
+		if os.Getenv("VERIF_C17_TIMING") != "" {
+			fmt.Fprintf(os.Stderr, "c17 phase %s: %.1fs\n", what, time.Since(t0).Seconds())
+		}
+		t0 = time.Now()
+	}
 	// 2. pools (scenarios run in parallel, output in generation order)
 	np := 24 * mult
 	scen := make([]poolScenario, np)
@@ -398,6 +456,7 @@ func main() {
 		}
 		out.Case(res[i][0], "accept", res[i][1], true)
 	}
+	lap("pools")
 	// 3. Session.Close: concurrent closers, queries in flight
 	for i := 0; i < 40*mult; i++ {
 		op := runClose(1+r.Intn(4), r.Intn(8), r)
@@ -413,7 +472,73 @@ func main() {
 		os.Exit(3)
 	}
 	out.Case(op, "accept", "sessclose/race", true)
-	// 4. model-only sanity lines (documented examples of the machine)
+	lap("sessclose")
+	// 4. the connect pipeline: conducted schedules (model-predicted) and scripted-fate scenarios (monitors)
+	nA, nB := 200*mult, 48*mult
+	type pres struct{ op, impl, obs string }
+	pr := make([]pres, nA+nB)
+	aseeds := make([]uint64, nA+nB)
+	for i := range aseeds {
+		aseeds[i] = r.U64()
+	}
+	var pwg sync.WaitGroup
+	psem := make(chan struct{}, 8)
+	for i := range pr {
+		pwg.Add(1)
+		psem <- struct{}{}
+		go func(i int) {
+			defer pwg.Done()
+			defer func() { <-psem }()
+			if atomic.LoadInt64(&failures) >= 2 {
+				return
+			}
+			if i < nA {
+				ar := vh.NewRng(aseeds[i])
+				cfg := genPipeCfg(ar)
+				op, impl, obs := runPipe(fmt.Sprintf("a%d", i), cfg, nil, genChooser(ar, cfg), 14+ar.Intn(14))
+				pr[i] = pres{op, impl, obs}
+			} else {
+				pr[i] = pres{obs: runPipeB(fmt.Sprintf("b%d", i), aseeds[i]%1000000007)}
+			}
+		}(i)
+	}
+	pwg.Wait()
+	for i := range pr {
+		if pr[i].obs == "" && pr[i].impl == "" {
+			continue // skipped: the run had already failed
+		}
+		if strings.HasPrefix(pr[i].impl, "fatal") || strings.HasPrefix(pr[i].obs, "fatal") {
+			fmt.Fprintln(os.Stderr, pr[i].impl, pr[i].obs)
+			os.Exit(3)
+		}
+		if i < nA {
+			if pr[i].op != "" {
+				w := strings.Fields(pr[i].op)
+				out.Case(pr[i].op, pr[i].impl, "pipe/"+w[1]+"/"+w[2], true)
+			}
+			out.Case(pr[i].obs, "accept", "pipeobs/A", true)
+		} else {
+			out.Case(pr[i].obs, "accept", "pipeobs/B", true)
+		}
+	}
+	lap("pipeline")
+	// 1. debouncer stop races (the defect repaired by the fix commit must not come back). Run LAST: each round
+	// leaves a goroutine parked on a listener nobody serves any more (refreshNow after stop), and thousands of
+	// parked goroutines make every goroutine profile of the pipeline monitors slow.
+	rounds := 3000 * mult
+	// stop() must return: waited for with the patient watchdog (a frozen process cannot expire it); a tree in which
+	// it hangs is reported after 3 hung rounds
+	stopReturned := func(done <-chan struct{}) bool { return closedWithin(done, watchdogFull) }
+	h := gocql.VerifRefreshDebouncerRaceW(rounds, 3, stopReturned)
+	out.Case(fmt.Sprintf("debrace refresh rounds=%d hung=%d", rounds, h), "accept", "debrace/refresh", true)
+	h = gocql.VerifEventDebouncerRaceW(rounds, 3, stopReturned)
+	out.Case(fmt.Sprintf("debrace event rounds=%d hung=%d", rounds, h), "accept", "debrace/event", true)
+	lap("debrace")
+	// 5. model-only sanity lines (documented examples of the machine)
 	out.Case("model 2 fillStart dialOk dialFail fillStop fillStart connError dialOk fillStop fillStart close dialOk", "conns=0 pending=0 filling=true closed=true opened=0", "model", true)
-	out.Close(nil)
+	out.Case("hsmodel code ctxFire cLeave cRet wRet wEsc rErr rEsc", "r=done w=done c=ret cancelled=1 buf=0", "model", true)
+	out.Case("hsmodel code wRet wSend cRet rEnd", "r=done w=done c=ret cancelled=1 buf=0", "model", true)
+	out.Case("hsmodel buf ctxFire cLeave cRet wRet wSend rErr", "r=send w=done c=ret cancelled=1 buf=1", "model", true)
+	out.Case("hsmodel buf ctxFire cLeave cRet wRet wSend rErr rSend", "stuck", "model", true)
+	out.Close(map[string]interface{}{"harness_phase_wall": phases})
 }
